@@ -398,6 +398,8 @@ func c09One(c *Ctx) error {
 				}
 				if rng.Intn(3) > 0 {
 					cw.w.Peer.Now = rec.GetTimeout() + int64(rng.Intn(3)) - 1 // time-out -1 / 0 / +1
+					// ... and any fraction of that second: a deadline is a whole second, reached when the second begins
+					cw.w.Peer.NowNanos = []int32{0, 1, 499999999, 500000000, 600000000, 999999999}[rng.Intn(6)]
 				}
 			}
 			msg = cw.msCancel(ch, u, id)
@@ -530,6 +532,7 @@ func c09Two(c *Ctx, disc bool) error {
 	}
 	tick := func(dt int64) {
 		cw.w.Peer.Now += dt
+		cw.w.Peer.NowNanos = []int32{0, 500000000, 999999999}[rng.Intn(3)]
 		acts = append(acts, fmt.Sprintf("MTick %d", dt))
 	}
 	for k := 14 + rng.Intn(18); k > 0; k-- {
